@@ -2,25 +2,15 @@
    meta-theory is in Core/SemProofs.v. *)
 From Coq Require Import ZArith String List Bool Ascii.
 From SV Require Import Core.Syntax Core.Values Core.Slice Int.Str.
+From SV Require Export Core.StrOps.
 Import ListNotations.
 Open Scope string_scope.
 Open Scope list_scope.
 Open Scope Z_scope.
 
 (* ---- helpers ----------------------------------------------------------------------------------- *)
-Fixpoint str_repeat (n : nat) (x : string) : string :=
-  match n with O => "" | S n => String.append x (str_repeat n x) end.
 Fixpoint list_repeat {A} (n : nat) (l : list A) : list A :=
   match n with O => [] | S n => l ++ list_repeat n l end.
-
-Fixpoint is_prefix (p x : string) : bool :=
-  match p, x with
-  | EmptyString, _ => true
-  | String a p', String b x' => Ascii.eqb a b && is_prefix p' x'
-  | _, EmptyString => false
-  end.
-Fixpoint is_substring (p x : string) : bool :=
-  is_prefix p x || match x with EmptyString => false | String _ x' => is_substring p x' end.
 
 Definition str_chars (x : string) : list ascii := list_ascii_of_string x.
 Definition of_chars (l : list ascii) : string := string_of_list_ascii l.
@@ -30,6 +20,21 @@ Definition as_int (v : value) : M Z := match v with VInt z => ret z | _ => fail 
 Definition state_of : M state := get_state.
 
 Definition veqM (a b : value) : M bool := s <- get_state ;; ret (veq depth s a b).
+
+(* the pure string layer (Core/StrOps.v) sees its arguments as the embedder would observe them (no addresses) and
+   returns address-free data; only a list result is allocated *)
+Definition obsl := list obs.
+Definition obs_list (vs : list value) : M obsl := s <- get_state ;; ret (map (obs_of depth s) vs).
+Definition lift_sres (r : sresult) : M value :=
+  match r with
+  | inl e => fail e
+  | inr (RStr x) => ret (VStr x)
+  | inr (RInt z) => ret (VInt z)
+  | inr (RBool b) => ret (VBool b)
+  | inr RNone => ret VNone
+  | inr (RStrTuple l) => ret (VTuple (map VStr l))
+  | inr (RStrList l) => alloc_list (map VStr l)
+  end.
 
 Definition check_hashable (k : value) : M unit :=
   if hashable depth k then ret tt else fail Unhashable.
@@ -95,6 +100,7 @@ Definition binop_eval (o : binop) (a b : value) : M value :=
   | BMod =>
       match a, b with
       | VInt x, VInt y => if y =? 0 then fail ZeroDiv else ret (VInt (x mod y))
+      | VStr f, _ => os <- obs_list [b] ;; lift_sres (percent_pure f (hd ONone os))      (* "fmt" % args *)
       | _, _ => fail TypeErr
       end
   | BAnd => match a, b with VInt x, VInt y => ret (VInt (Z.land x y)) | _, _ => fail TypeErr end
@@ -254,15 +260,12 @@ Fixpoint enumerate_from (i : Z) (l : list value) : list value :=
 (* ---- builtin functions ------------------------------------------------------------------------- *)
 Definition builtin_names : list string :=
   ["len"; "range"; "list"; "tuple"; "bool"; "int"; "str"; "sorted"; "reversed"; "enumerate"; "zip";
-   "min"; "max"; "any"; "all"; "emit"; "abs"; "dict"].
+   "min"; "max"; "any"; "all"; "emit"; "abs"; "dict"; "repr"; "ord"; "chr"].
 
+(* str(x): a string is itself, anything else its repr *)
 Definition str_of (v : value) : M string :=
-  match v with
-  | VStr x => ret x
-  | VInt z => ret (render 10 z)
-  | VBool true => ret "True" | VBool false => ret "False" | VNone => ret "None"
-  | _ => fail Unsupported
-  end.
+  os <- obs_list [v] ;;
+  match str_obs (hd ONone os) with Some x => ret x | None => fail Unsupported end.
 
 Definition call_builtin (b : string) (args : list value) (kwargs : list (string * value)) : M value :=
   match kwargs with _ :: _ => fail Unsupported | [] =>
@@ -357,6 +360,8 @@ Definition call_builtin (b : string) (args : list value) (kwargs : list (string 
     match args with
     | [] => alloc_dict []
     | _ => fail Unsupported end
+  else if existsb (String.eqb b) str_builtin_names then
+    os <- obs_list args ;; lift_sres (str_builtin_pure b os)
   else fail Unsupported
   end.
 
@@ -468,7 +473,26 @@ Definition call_method (recv : value) (m : string) (args : list value) : M value
       else if String.eqb m "clear" then
         match args with [] => set_dict d [] ;;; ret VNone | _ => fail Arity end
       else fail Unsupported
+  | VStr x =>
+      if String.eqb m "join" then
+        match args with
+        | [v] => xs <- iter_elems v ;; os <- obs_list xs ;; lift_sres (join_pure x os)
+        | _ => fail Arity end
+      else os <- obs_list args ;; lift_sres (str_method_pure x m os [])
   | _ => fail Unsupported
+  end.
+
+(* a method call with keyword arguments: only str.format takes any (every other method of the subset is positional-only) *)
+Definition call_method_kw (recv : value) (m : string) (args : list value) (kwargs : list (string * value)) : M value :=
+  match kwargs with
+  | [] => call_method recv m args
+  | _ :: _ =>
+      match recv with
+      | VStr x =>
+          os <- obs_list args ;; kos <- obs_list (map snd kwargs) ;;
+          lift_sres (str_method_pure x m os (combine (map fst kwargs) kos))
+      | _ => fail Arity
+      end
   end.
 
 (* ---- argument binding (simple reference rule; the full call rules are C08's Bind model) ---------- *)
@@ -663,7 +687,10 @@ Fixpoint eval (n : nat) (en : env) (e : expr) {struct n} : M value :=
                               | _ => fail TypeErr end
                   end ;;
         call n fv (pos ++ extra) (named ++ dextra)
-    | EMeth r m args => rv <- eval n en r ;; vs <- mapM (eval n en) args ;; call_method rv m vs
+    | EMeth r m args kwargs =>
+        rv <- eval n en r ;; vs <- mapM (eval n en) args ;;
+        named <- mapM (fun kv => v <- eval n en (snd kv) ;; ret (fst kv, v)) kwargs ;;
+        call_method_kw rv m vs named
     | ELambda ps body =>
         dflts <- mapM (fun p => match p with
                                 | PNormal x (Some d) => v <- eval n en d ;; ret [(x, v)]
